@@ -516,71 +516,76 @@ func cmdRun(args []string) {
 	hangIsV := hooks.HangIsViolation[*propID]
 	for k := int64(0); k < W; k++ {
 		r := &results[k]
-		if r.harness != "" {
-			fatal2("worker %d: %s\n%s", k, r.harness, r.stderr)
-		}
 		from := int64(0)
-		for tries := 0; r.hangAt >= 0 || r.crashed; tries++ {
-			// A run hung or the process died. Find / confirm the run in a fresh
-			// careful worker; a hang is only believed when it repeats with three
-			// times the budget.
+		workerArgs := func(from int64, careful bool, tag string) []string {
+			a := []string{"worker", "-prop", *propID, "-tier", *tier, "-seed", fmt.Sprint(*seed), "-w", fmt.Sprint(k), "-W", fmt.Sprint(W),
+				"-runs", fmt.Sprint(runs), "-from", fmt.Sprint(from), "-keys", filepath.Join(*scratch, fmt.Sprintf("w%d_%s", k, tag))}
+			if careful {
+				a = append(a, "-careful")
+			}
+			return a
+		}
+		for tries := 0; ; tries++ {
 			if tries > 20 {
-				fatal2("worker %d keeps dying", k)
+				fatal2("worker %d keeps hanging or dying", k)
 			}
-			found = append(found, r.viol...)
-			if r.stats != nil {
+			if r.harness != "" {
+				fatal2("worker %d: %s\n%s", k, r.harness, r.stderr)
+			}
+			if r.hangAt < 0 && !r.crashed {
+				if r.stats == nil {
+					fatal2("worker %d produced no statistics (exit %d)\n%s", k, r.exitCode, r.stderr)
+				}
 				mergeStats(total, r.stats)
+				found = append(found, r.viol...)
+				vcount += r.vcount
+				break
 			}
-			idx := r.hangAt
-			what := "hang"
 			if r.crashed {
-				what = "process-died"
-				a := []string{"worker", "-prop", *propID, "-tier", *tier, "-seed", fmt.Sprint(*seed), "-w", fmt.Sprint(k), "-W", fmt.Sprint(W),
-					"-runs", fmt.Sprint(runs), "-from", fmt.Sprint(from), "-careful"}
-				cr := runWorker(a, nil, 0)
-				if !cr.crashed && cr.hangAt < 0 {
-					fatal2("worker %d died (exit %d) but a careful re-run of its slice did not: not deterministic\n%s", k, r.exitCode, r.stderr)
+				// The process died. Re-run its slice alone and carefully (the other
+				// workers have finished, so memory pressure from them is gone). If
+				// that completes, its results replace the dead worker's; if it dies
+				// again, the run it announced last is the culprit.
+				cr := runWorker(workerArgs(from, true, fmt.Sprintf("c%d", tries)), nil, 0)
+				if !cr.crashed {
+					if cr.hangAt < 0 && cr.harness == "" {
+						fmt.Printf("note: worker %d died (exit %d) while all workers were running; its slice, re-executed alone, completed and is used instead\n", k, r.exitCode)
+					}
+					*r = cr
+					continue
 				}
-				idx = cr.lastCur
-				if cr.hangAt >= 0 {
-					idx, what = cr.hangAt, "hang"
+				idx := cr.lastCur
+				if idx < 0 {
+					fatal2("worker %d dies before its first run (exit %d)\n%s", k, cr.exitCode, trimTo(cr.stderr, 2000))
 				}
-				r.stderr = cr.stderr
-			}
-			if what == "hang" {
-				a := []string{"worker", "-prop", *propID, "-tier", *tier, "-seed", fmt.Sprint(*seed), "-digest", fmt.Sprint(idx)}
-				cr := runWorker(a, []string{"VERIF_WATCHDOG_X=3"}, 0)
-				if cr.hangAt < 0 && !cr.crashed {
-					fmt.Printf("note: run %d exceeded the watchdog once but finished on retry; not counted\n", idx)
-					what = ""
-				}
-			}
-			if what != "" {
 				if !hangIsV {
-					fatal2("run %d of %s: %s inside the code under test (watchdog %v); this property's check cannot judge it\n%s", idx, *propID, what, hooks.PerRunTimeout, trimTo(r.stderr, 2000))
+					fatal2("run %d of %s: the process died inside the code under test; this property's check cannot judge it\n%s", idx, *propID, trimTo(cr.stderr, 2000))
 				}
-				t := tape.New(RunSeed(*seed, *propID, idx), p.Prefix(*tier, idx))
-				// the tape of a run that never returned is unknown; replay from seed
-				_ = t
-				found = append(found, wireViolation{T: "v", I: idx, Tape: nil, Class: what, Sig: what,
-					Detail: fmt.Sprintf("%s in run %d: %s", what, idx, trimTo(r.stderr, 1500))})
+				found = append(found, cr.viol...)
+				found = append(found, wireViolation{T: "v", I: idx, Class: "process-died", Sig: "process-died",
+					Detail: fmt.Sprintf("the worker process died twice in run %d: %s", idx, trimTo(cr.stderr, 1200))})
+				vcount++
+				from = ((idx-k)/W + 1) * W
+				*r = runWorker(workerArgs(from, false, fmt.Sprintf("r%d", tries)), nil, 0)
+				continue
+			}
+			// a run exceeded the watchdog: believed only when it repeats with 3x the budget
+			idx := r.hangAt
+			found = append(found, r.viol...)
+			cr := runWorker([]string{"worker", "-prop", *propID, "-tier", *tier, "-seed", fmt.Sprint(*seed), "-digest", fmt.Sprint(idx)}, []string{"VERIF_WATCHDOG_X=3"}, 0)
+			if cr.hangAt < 0 && !cr.crashed {
+				fmt.Printf("note: run %d exceeded the watchdog once but finished on retry; not counted\n", idx)
+			} else {
+				if !hangIsV {
+					fatal2("run %d of %s does not return (watchdog %v, then 3x); this property's check cannot judge it", idx, *propID, hooks.PerRunTimeout)
+				}
+				found = append(found, wireViolation{T: "v", I: idx, Class: "hang", Sig: "hang",
+					Detail: fmt.Sprintf("run %d did not return within %v and again not within three times that", idx, hooks.PerRunTimeout)})
 				vcount++
 			}
-			// continue this worker's slice after the offending run
 			from = ((idx-k)/W + 1) * W
-			a := []string{"worker", "-prop", *propID, "-tier", *tier, "-seed", fmt.Sprint(*seed), "-w", fmt.Sprint(k), "-W", fmt.Sprint(W),
-				"-runs", fmt.Sprint(runs), "-from", fmt.Sprint(from), "-keys", filepath.Join(*scratch, fmt.Sprintf("w%d_%d", k, tries))}
-			*r = runWorker(a, nil, 0)
-			if r.harness != "" {
-				fatal2("worker %d: %s", k, r.harness)
-			}
+			*r = runWorker(workerArgs(from, false, fmt.Sprintf("h%d", tries)), nil, 0)
 		}
-		if r.stats == nil {
-			fatal2("worker %d produced no statistics (exit %d)\n%s", k, r.exitCode, r.stderr)
-		}
-		mergeStats(total, r.stats)
-		found = append(found, r.viol...)
-		vcount += r.vcount
 	}
 	var keys, logs []uint64
 	ents, _ := os.ReadDir(*scratch)
